@@ -223,6 +223,18 @@ def verify_unit_once(unit, repo, canary=False, extra_stubs=()):
         for o in f['spans']:
             if o.get('k') == 'src' and f['site'] is None:
                 f['site'] = o
+        if f['site'] is None and f['clause'] is not None and str(f['clause'].get('section', '')).startswith('at returns'):
+            # an assertion of a block placed at a `return`: the site is that return (the nearest source line above the block)
+            ln = min(o['gen_line'] for o in f['spans'] if o.get('k') == 'contract')
+            q = ln - 1
+            while q > 0 and origin[q - 1].get('k') != 'src':
+                q -= 1
+            if q > 0:
+                o = dict(origin[q - 1])
+                o['gen_line'] = q
+                o['gen_text'] = re.sub(r'\{ let verif_ret =', 'return', lines[q - 1].strip())
+                o['primary'] = False
+                f['site'] = o
         r.failures.append(f)
     if js is None and r.undecided is None:
         r.undecided = 'verus produced no result: ' + ' | '.join(other[:3])
@@ -704,6 +716,9 @@ def main():
             assumptions.append('callee contract used at call sites, body proved in its own unit: %s' % s['fn'])
         else:
             assumptions.append('ASSUMED contract (body not proved in any unit): %s' % s['fn'])
+    for i in infos:
+        for abs_fn in i.get('abstract', []):
+            assumptions.append('ABSTRACT in unit %s (signature only, no contract used: the obligations hold for every result it may return; its panics are outside): %s' % (i.get('unit'), abs_fn))
     for nc in cfg.get('not_covered', []):
         assumptions.append(('scope of the proof: ' if nc.startswith('PROVED') else ('' if nc.startswith(('not covered', 'RELATIVE TO')) else 'not covered: ')) + nc)
     if kani_res:
